@@ -293,7 +293,8 @@ fn gen_case(rng: &mut Rng) -> GradCase {
             let room = (r2 - r1) as f64 * 0.85;
             let ang = rng.range(0., 6.28);
             let dist = rng.range(0., room);
-            let c1 = ((c2.0 as f64 + dist * ang.cos()) as f32, (c2.1 as f64 + dist * ang.sin()) as f32);
+            // exactly concentric circles now and then
+            let c1 = if rng.chance(0.2) { c2 } else { ((c2.0 as f64 + dist * ang.cos()) as f32, (c2.1 as f64 + dist * ang.sin()) as f32) };
             SrcSpec::TwoCircle { stops, c1, r1, c2, r2, spread }
         }
         _ => {
